@@ -121,13 +121,42 @@ def check(ctx):
     o = Ob('C12.2', 'K6', 'the duplicate test scans the queue and the active list for an order with the same target and the same tag')
     obs.append(o)
     fn = P.method(M, '_is_work_order_requested')[1]
-    tp, gp = [a.arg for a in fn.args.args][1:3]
+    dparams = [a.arg for a in fn.args.args][1:]
+    member_tests = [x for x in ast.walk(fn) if isinstance(x, ast.Compare) and len(x.ops) == 1 and isinstance(x.ops[0], (ast.In, ast.NotIn))
+                    and ast.unparse(x.comparators[0]) in ('self._request_queue', 'self._active_requests')]
+    if len(dparams) < 2 or member_tests:
+        # the duplicate test is phrased as membership (`order in list`): the relation is the equality of the order class
+        o.count()
+        WO = P.cls('_WorkOrder') if P.has_cls('_WorkOrder') else None
+        rel = None
+        if WO is not None:
+            if '__eq__' in WO.methods:
+                rel = 'a user-defined __eq__ (not analysed)'
+            elif any(ast.unparse(d).split('(')[0] in ('dataclass', 'dataclasses.dataclass') for d in WO.node.decorator_list):
+                flds = [st.target.id for st in WO.node.body if isinstance(st, ast.AnnAssign) and isinstance(st.target, ast.Name)
+                        and not (isinstance(st.value, ast.Call) and any(k.arg == 'compare' and isinstance(k.value, ast.Constant) and k.value.value is False for k in st.value.keywords))]
+                rel = 'equality of the fields ' + str(flds)
+                if sorted(flds) == ['tag', 'target']:
+                    rel = None
+            else:
+                rel = 'object identity (the class defines no __eq__), so a freshly built order is never found'
+        covered_lists = {ast.unparse(x.comparators[0]) for x in member_tests}
+        if rel is not None or covered_lists != {'self._request_queue', 'self._active_requests'}:
+            o.fail(P, 'Maintainer._is_work_order_requested', member_tests[0] if member_tests else fn,
+                   f'the duplicate test is a membership test whose relation is {rel or "over " + str(sorted(covered_lists))}; an order is a duplicate iff an order with the same target AND the same tag '
+                   '(nothing more, nothing less) is queued or in progress', file=M.mod.path, line=fn.lineno)
+        else:
+            o.witness('membership')
+        dup_by_membership = True
+    else:
+        dup_by_membership = False
+    tp, gp = (dparams + [None, None])[:2]
     gd = ctx.graph(M, '_is_work_order_requested', boolean=True)
     EL = ExistsLoops({'self._request_queue': '#dupQ', 'self._active_requests': '#dupA'}, [('target', eq_fact('target', tp)), ('tag', eq_fact('tag', gp))])
     and_ = Analysis(P, gd, EL.fields())
     EL.install(and_)
     import itertools
-    for q, a_ in itertools.product('TF', 'TF'):
+    for q, a_ in ([] if dup_by_membership else itertools.product('TF', 'TF')):
         res = ctx.explore(and_, [State(EL.entry(**{'#dupQ': q, '#dupA': a_}))])
         yes, no = res.at(gd.exitT), res.at(gd.exitF)
         o.count()
@@ -287,6 +316,16 @@ def check(ctx):
                     o.witness((attr, s.func.name, role[1]))
             elif role[0] == 'store' and not (s.func.name == '__init__'):
                 o.fail(P, s.ctx, s.stmt, f'Maintainer.{attr} is re-bound', file=s.mod.path, line=s.line)
+    # the capacity is exactly the constructor argument (a `capacity or default` idiom would turn an explicit capacity of 0 into "unlimited")
+    minit = P.method(M, '__init__')[1]
+    cap_param = next((a_.arg for a_ in minit.args.args if a_.arg == 'capacity'), None)
+    o.count()
+    caps = [x for x in ast.walk(minit) if isinstance(x, ast.Assign) and any(is_self_attr(t, '_capacity') for t in x.targets)]
+    if cap_param is None or len(caps) != 1 or ast.unparse(caps[0].value) != cap_param:
+        o.fail(P, 'Maintainer.__init__', caps[0] if caps else 'self._capacity = capacity', 'the maintainer capacity is not exactly the constructor argument '
+               '(for instance `capacity or inf` makes a maintainer configured with capacity 0 unlimited)', file=M.mod.path, line=minit.lineno)
+    else:
+        o.witness('capacity-arg')
     for prop, want in (('available_capacity', {'self._capacity': 1, 'self._utilization': -1}), ('total_capacity', {'self._capacity': 1})):
         o.count()
         if not N.norm(ast.parse('self.' + prop, mode='eval').body).is_(want):
